@@ -1,2 +1,13 @@
-"""C01 -- see checks/bls_proto.py (obligations registered there under C01)."""
+"""C01 -- see checks/bls_proto.py (obligations registered there under C01); plus the codec contracts the round trip consumes (owned by C11)."""
+from symx.harness import obligation
 from . import bls_proto  # noqa: F401
+from . import c11 as _c11
+
+# an honest signature verifies only if the encodings produced by SkToPk / Sign decode back to the same points
+obligation("C01", "codec_contract_G1_round_trip",
+           bound="every affine point of E(F_q) with x != 0 (all points of the prime-order subgroup) and every projective scaling: decompress_G1(compress_G1(P)) = P (the C11 obligation without the order-3 points)")(_c11.roundtrip_g1_subgroup)
+obligation("C01", "codec_contract_G2_round_trip", timeout=900,
+           bound="every affine point of E'(F_q^2): decompress_G2(compress_G2(P)) = P (the C11 obligation)")(_c11.roundtrip_g2)
+obligation("C01", "codec_contract_byte_helpers", timeout=900,
+           bound="every word in range / every 48- and 96-byte string: G1_to_pubkey, G2_to_signature, pubkey_to_G1, signature_to_G2 are the octet-string forms of the word codecs (the C11 obligations)")(
+    lambda rep, tier: (_c11.byte_helpers(rep, tier), _c11.byte_decoders(rep, tier)))
